@@ -315,7 +315,10 @@ def access_lines():
             if fn:
                 global_names.setdefault(fn, set()).update(names)
         else:
-            attr_names.update(n for n in names if n in contents)
+            # attributes of module-level singletons and classes: containers, and data-like values
+            # that did not exist / were rebound (a memo slot is written long after __init__)
+            attr_names.update(n for n in names if n in contents or (
+                not isinstance(owner, type) and not (n.startswith('__') and n.endswith('__'))))
     out = {}
     for name, m in _modules():
         fn = getattr(m, '__file__', None)
